@@ -25,7 +25,7 @@ answers every request it receives with a flush of its shards and keeps polling a
 defer retirements flushes the retirement queue; (6) a retirement that could not complete is put back on the queue, and every
 delete / superseded generation taken out of a shard reaches the queue.
 """
-DECIDED = ["the reader count of an extent always comes back down, so a retirement is never parked for ever (shared with C08 / C18.readers)", "(1) worker shard sets partition the shard vector", "(2) periodic coordinator: always spawned, documented interval, all workers, "
+DECIDED = ['every accepted mutation is handed to the write buffer (a replacement together with the generation it replaced) unless store configuration says there is no device; no record state is consulted at enqueue time', "the reader count of an extent always comes back down, so a retirement is never parked for ever (shared with C08 / C18.readers)", "(1) worker shard sets partition the shard vector", "(2) periodic coordinator: always spawned, documented interval, all workers, "
            "each worker's own shards, count > 0 => wake on that worker's channel, worker 0 for pending retirements, retirements not deferred",
            "(3) full-buffer trigger: after every enqueue, owner = shard % W, non-strict thresholds",
            "(4) shard counters are maintained under the shard lock", "(5) every received request is answered by a flush; timeout keeps polling",
@@ -688,7 +688,14 @@ def check_started(ctx):
                   "at least one worker is asked for on any CPU count", b.where(s), {"arg": e.show()[:80]})
 
 
+def check_handoff(ctx):
+    """write-behind can only be bounded for mutations the write buffer has been told about (rules.common.check_handoff)"""
+    from rules.common import check_handoff as ch
+    ch(ctx, "C19.handoff")
+
+
 def check(ctx):
+    check_handoff(ctx)
     check_owner(ctx)
     check_periodic(ctx)
     check_trigger(ctx)
